@@ -8,11 +8,19 @@ pub(crate) struct DecisionTracker {
     map: DecisionMap,
     stack: Vec<Decision>,
     propagate_index: usize,
+    #[cfg(feature = "verif-hooks")]
+    pub(crate) verif_events: Vec<crate::verif::VerifEvent>,
 }
 
 impl DecisionTracker {
     pub(crate) fn clear(&mut self) {
+        #[cfg(feature = "verif-hooks")]
+        let verif_events = std::mem::take(&mut self.verif_events);
         *self = Default::default();
+        #[cfg(feature = "verif-hooks")]
+        {
+            self.verif_events = verif_events;
+        }
     }
 
     #[cfg(feature = "diagnostics")]
@@ -56,6 +64,13 @@ impl DecisionTracker {
             None => {
                 self.map.set(decision.variable, decision.value, level);
                 self.stack.push(decision);
+                #[cfg(feature = "verif-hooks")]
+                self.verif_events.push(crate::verif::VerifEvent::Assign {
+                    var: crate::internal::arena::ArenaId::to_usize(decision.variable) as u32,
+                    value: decision.value,
+                    level,
+                    reason: crate::internal::arena::ArenaId::to_usize(decision.derived_from) as u32,
+                });
                 Ok(true)
             }
             Some(value) if value == decision.value => Ok(false),
@@ -64,6 +79,9 @@ impl DecisionTracker {
     }
 
     pub(crate) fn undo_until(&mut self, level: u32) {
+        #[cfg(feature = "verif-hooks")]
+        self.verif_events
+            .push(crate::verif::VerifEvent::UndoUntil(level));
         if level == 0 {
             self.clear();
             return;
@@ -81,6 +99,8 @@ impl DecisionTracker {
     pub(crate) fn undo_last(&mut self) -> (Decision, u32) {
         let decision = self.stack.pop().unwrap();
         self.map.reset(decision.variable);
+        #[cfg(feature = "verif-hooks")]
+        self.verif_events.push(crate::verif::VerifEvent::UndoLast);
 
         self.propagate_index = self.stack.len();
 
